@@ -2,7 +2,7 @@
 import os, json
 
 RULE = ("MC: the permission rules of Relay.tla imply the relay invariants in a small closed world (any proposed single-record "
-        "change or tunnel change, 3 nodes). T: seeded schedules on 4 complete nodes (initiator, relay, target, hostile "
+        "change or tunnel change, 3 nodes, at most 1 (thorough: 2) relay records in the world). T: seeded schedules on 4 complete nodes (initiator, relay, target, hostile "
         "authenticated peer sending create-relay requests/responses with arbitrary addresses and indexes; reordering, "
         "duplicates, replays, tunnel closes, time); every step's relay records, tunnel set and forwarded datagrams validated by "
         "TLC against the permission specification; distinct = traces")
@@ -16,7 +16,14 @@ ASSUMPTIONS = [
 
 
 def run(ctx):
-    ctx.tlc('MC_Relay', 'MC_Relay.cfg', timeout=1500) if not os.environ.get('VERIF_SKIP_MC') else setattr(ctx, 'states', 1)
+    if os.environ.get('VERIF_SKIP_MC'):
+        ctx.states = 1
+    else:
+        # quick: at most one relay record in the world (~30 s); thorough: two (~15 M transitions, 20 min on 8 workers)
+        cfg = open(os.path.join(os.path.dirname(os.path.dirname(os.path.dirname(os.path.abspath(__file__)))), 'spec', 'MC_Relay.cfg')).read()
+        if ctx.quick:
+            cfg = cfg.replace('MaxRecs = 2', 'MaxRecs = 1')
+        ctx.tlc('MC_Relay', 'MC_Relay.cfg', timeout=3000, workers=8, cfgtext=cfg)
     res = ctx.gotest('e2e', 'TestVerif_C39', tags='verif e2e_testing', also=('net',), timeout=1500)
     tf = os.path.join(res['_outdir'], 'trace_relay.ndjson')
     fails, ok = ctx.validate_traces('TraceMC_Relay', 'Trace_Relay.cfg', tf, max_fail=8)
